@@ -46,7 +46,7 @@ def run(tier, seed, replay=None):
                 problems.append("temporary file(s) left in /tmp: %s" % r["tmp_leaked"])
             if r["ops"].count("createTmp") != r["ops"].count("unlinkTmp"):
                 problems.append("temporary file created %d times, removed %d times" % (r["ops"].count("createTmp"), r["ops"].count("unlinkTmp")))
-            allowed = {os.path.normpath(r["out"]), os.path.normpath(r["errpath"])}
+            allowed = {os.path.normpath(os.path.relpath(os.path.join(r["dir"], x), r["dir"])) for x in (r["out"], r["errpath"])}
             dbg = scn["dbgFiles"] or scn["dbgXml"]
             for path in sorted(set(r["after"]) | set(r["before"])):
                 b, a = r["before"].get(path), r["after"].get(path)
@@ -63,7 +63,7 @@ def run(tier, seed, replay=None):
                 extra = [p for p in r["after"] if p not in r["before"] and (os.path.basename(p).startswith("dbg_") or p.endswith(".gdx"))]
                 if extra:
                     problems.append("debug files written without being requested: %s" % extra)
-            for inp in ("in.ttf", "p.gdl", "stddef.gdh", "link.ttf", "hard.ttf"):
+            for inp in ["in.ttf", "p.gdl", "stddef.gdh", "link.ttf", "hard.ttf"] + r["inputs"]:
                 if inp in r["before"] and r["before"].get(inp) != r["after"].get(inp):
                     problems.append("input %s changed or disappeared" % inp)
             if problems:
